@@ -391,6 +391,14 @@ func AddressFromStorage(s AddressStorage) (*Address, error) {
 		return nil, fmt.Errorf("failed to parse private key: %w", err)
 	}
 
+	// Check key sizes before using the keys.
+	if len(privKey) != ed25519.PrivateKeySize {
+		return nil, fmt.Errorf("invalid private key size: %d (should be %d)", len(privKey), ed25519.PrivateKeySize)
+	}
+	if len(pubKey) != ed25519.PublicKeySize {
+		return nil, fmt.Errorf("invalid public key size: %d (should be %d)", len(pubKey), ed25519.PublicKeySize)
+	}
+
 	addr := &Address{
 		PublicAddress: PublicAddress{
 			IP:        ip,
@@ -404,12 +412,6 @@ func AddressFromStorage(s AddressStorage) (*Address, error) {
 			ed25519.PrivateKey(privKey),
 			ed25519.PublicKey(pubKey),
 		),
-	}
-	if len(addr.PrivateKey) != ed25519.PrivateKeySize {
-		return nil, fmt.Errorf("invalid private key size: %d (should be %d)", len(addr.PrivateKey), ed25519.PrivateKeySize)
-	}
-	if len(addr.PublicKey) != ed25519.PublicKeySize {
-		return nil, fmt.Errorf("invalid public key size: %d (should be %d)", len(addr.PublicKey), ed25519.PublicKeySize)
 	}
 	if !addr.Hash.IsValid() {
 		return nil, errors.New("invalid address hash algorithm")
